@@ -1,6 +1,7 @@
 package main
 
 import (
+	"go/constant"
 	"fmt"
 	"go/ast"
 	"go/token"
@@ -966,14 +967,75 @@ func propC03(c *Ctx) string {
 	c03NoPkt(c)
 	c03Ship(c)
 	c03WS(c)
+	c03WSLimit(c)
 	c01Const(c, "C03/DETECT")
 	c.NotDecide("identical packets under every fragmentation/coalescing of the byte stream (behaviour of bufio.Reader, io.ReadFull)", "wire bytes == concatenation of encodings under async flush timing (mercury.Writer)", "WebSocket message stitching beyond the reader-switch rule (gorilla/websocket)")
 	c.Assume("bufio.Reader.Peek/io.ReadFull semantics", "mercury.Writer is a FIFO byte stream")
 	return c03Explanation
 }
 
+// c03WSLimit: the read limit is a per-packet limit enforced by Decoder.Read on the byte stream. A WebSocket
+// message may carry several packets (and a packet may span messages), so a message-size limit on the carrier
+// refuses coalesced packets that are each within the limit. Zero-count rule over package transport; the target
+// method is resolved through the package's own import of gorilla/websocket (unresolved => undecided).
+func c03WSLimit(c *Ctx) {
+	r := c.Rule("C03/WSLIMIT", "WHO", "package transport never imposes a message-size limit on the WebSocket carrier ((*websocket.Conn).SetReadLimit with a possibly positive argument): the packet read limit is enforced per packet by the stream decoder only", 1)
+	tp := c.P.Pkgs["transport"]
+	if tp == nil {
+		r.Undecided("transport", 0, "package not loaded")
+		return
+	}
+	var target *types.Func
+	for _, imp := range tp.Types.Imports() {
+		if strings.HasSuffix(imp.Path(), "gorilla/websocket") {
+			if tn, ok := imp.Scope().Lookup("Conn").(*types.TypeName); ok {
+				if named, ok := tn.Type().(*types.Named); ok {
+					for i := 0; i < named.NumMethods(); i++ {
+						if named.Method(i).Name() == "SetReadLimit" {
+							target = named.Method(i)
+						}
+					}
+				}
+			}
+		}
+	}
+	if target == nil {
+		r.Undecided("transport:websocket.Conn.SetReadLimit", 0, "the WebSocket library's message limit method does not resolve (library replaced?): the rule cannot be instantiated")
+		return
+	}
+	n := 0
+	for _, f := range tp.Syntax {
+		if strings.HasSuffix(c.P.Fset.File(f.Pos()).Name(), "_test.go") {
+			continue
+		}
+		ast.Inspect(f, func(m ast.Node) bool {
+			call, ok := m.(*ast.CallExpr)
+			if !ok {
+				return true
+			}
+			if fn, ok := typeutilCallee(tp.TypesInfo, call).(*types.Func); ok && fn == target {
+				n++
+				nonPositive := false
+				if len(call.Args) == 1 {
+					if tv, ok := tp.TypesInfo.Types[call.Args[0]]; ok && tv.Value != nil {
+						if v, ok := constant.Int64Val(tv.Value); ok && v <= 0 {
+							nonPositive = true
+						}
+					}
+				}
+				r.Check("transport:websocket.Conn.SetReadLimit call", nonPositive, call.Pos(), 1,
+					"a message-size limit is set on the WebSocket carrier: a message that coalesces several packets, each within the packet read limit, is refused and all its packets are lost")
+			}
+			return true
+		})
+	}
+	if n == 0 {
+		r.Pass("transport:no websocket message limit", 0, 1, "zero call sites of "+target.FullName()+" in package transport (target method resolved through the package's import)")
+	}
+}
+
 func c03Limit(c *Ctx) {
-	r := c.Rule("C03/LIMIT", "TRACE", "Decoder.Read: limit check ≺ buffer.Grow / pool slice / io.ReadFull on every path; under (limit>0 ∧ length>limit) none of them is reached and ErrReadLimitExceeded is returned", 3)
+	r := c.Rule("C03/LIMIT", "TRACE", "Decoder.Read: limit check ≺ buffer.Grow / pool slice / io.ReadFull on every path; under (limit>0 ∧ length>limit) none of them is reached and ErrReadLimitExceeded is returned; the compared limit is loaded after the packet arrived", 4)
 	fi := c.P.ByObj[c.P.Method("packet", "Decoder", "Read")]
 	if fi == nil {
 		r.Undecided("packet.(*Decoder).Read", 0, "not found")
@@ -1127,6 +1189,61 @@ func c03Limit(c *Ctx) {
 		}
 	}
 	r.Check(fi.Name+"@limit=0", ok0, fi.Decl.Pos(), len(in2.Traces), "a zero limit means unlimited")
+	// (4) the limit that is compared is the limit configured when the packet arrives: no blocking read of the
+	// underlying stream lies between the (atomic) load of the limit and the comparison. A load hoisted above the
+	// Peek that waits for the next packet applies a stale limit to a packet that arrives after SetReadLimit.
+	isStreamRead := func(e *Event) bool {
+		if e.Kind != EvCall {
+			return false
+		}
+		f, ok := e.Callee.(*types.Func)
+		if !ok {
+			return false
+		}
+		full := f.FullName()
+		if full == "io.ReadFull" || full == "io.ReadAtLeast" {
+			return true
+		}
+		if sig, ok := f.Type().(*types.Signature); ok && sig.Recv() != nil {
+			if typeIs(sig.Recv().Type(), "bufio", "Reader", true) {
+				return true
+			}
+		}
+		return false
+	}
+	okFresh, nCmp := true, 0
+	w = nil
+	for _, t := range in0.Traces {
+		cmp := -1
+		for i, e := range t.Ev {
+			if (e.Kind == EvCond || e.Kind == EvOutcome) && e.Cond != nil && mentions0(h, e.Cond, limV, nil) {
+				cmp = i
+				break
+			}
+		}
+		if cmp < 0 {
+			continue
+		}
+		nCmp++
+		load := -1
+		for i := cmp - 1; i >= 0; i-- {
+			if e := t.Ev[i]; e.Kind == EvAssign && e.LObj == limV {
+				load = i
+				break
+			}
+		}
+		if load < 0 {
+			okFresh, w = false, t
+			continue
+		}
+		for _, e := range t.Ev[load:cmp] {
+			if isStreamRead(e) {
+				okFresh, w = false, t
+			}
+		}
+	}
+	r.Check(fi.Name+":limit loaded after the packet arrived", okFresh && nCmp > 0, fi.Decl.Pos(), len(in0.Traces),
+		"the limit is loaded before a blocking read of the stream and compared afterwards: a limit configured while the decoder waits is not applied to the packet that arrives next", shortWitness(c.witness(w))...)
 }
 
 func mentions0(h *Interp, e ast.Expr, a, b types.Object) bool {
